@@ -58,10 +58,15 @@ func cActionThreadID(c *Ctx, r *Result, rule string) {
 						return
 					}
 					if g := ci.Common().StaticCallee(); g != nil && depth < 2 && c.inModule(g) && len(g.Blocks) > 0 {
+						handed := false
 						for i, a := range ci.Common().Args {
-							if unspill(a) == own && i < len(g.Params) {
+							if own != nil && unspill(a) == own && i < len(g.Params) {
+								handed = true
 								visit(g, g.Params[i], depth+1)
 							}
+						}
+						if !handed && c.PkgOf(g) == c.PkgOf(act) {
+							visit(g, nil, depth+1) // a body that is not given the id cannot evaluate under it
 						}
 						return
 					}
@@ -83,13 +88,13 @@ func cActionThreadID(c *Ctx, r *Result, rule string) {
 					n++
 					site := ord.key(key, "eval-tid", accessPath(tidArg))
 					pos := c.Pos(c.InstrPos(x))
-					if unspill(tidArg) == own {
+					if own != nil && unspill(tidArg) == own {
 						r.Instance(rule, site, pos, "ok", "evaluated under the thread id the engine handed to this invocation", true)
 						return
 					}
 					r.Instance(rule, site, pos, "finding", "evaluated under another thread id", true)
 					r.Report(Finding{Rule: rule, Site: site, Pos: pos,
-						Msg: fmt.Sprintf("%s: the sink body is evaluated under %s, not under the thread id the engine handed to the action (%s): every execution of the sink then runs with the id of the thread that declared it — two sink threads pass each other's mutex owner test and are inside one mutex block together", key, accessPath(tidArg), own.Name())})
+						Msg: fmt.Sprintf("%s: the sink body is evaluated under %s, not under the thread id the engine handed to the action (%s): every execution of the sink then runs with the id of the thread that declared it — two sink threads pass each other's mutex owner test and are inside one mutex block together", key, accessPath(tidArg), act.Params[len(act.Params)-1].Name())})
 				})
 			}
 			visit(act, own, 0)
